@@ -224,4 +224,47 @@ func c04(r *rng, tier string, o *out) {
 			})
 		}
 	}
+	// (c) directories of the sizes the writer produces for big archives: 12,000 to 16,000 entries in one directory, more than
+	// 64 KiB once decoded (the periodic layout keeps a gzip root within the first 16 KiB); root-only and under one leaf level
+	nbig := 3
+	if tier == "thorough" {
+		nbig = 40
+	}
+	for c := 0; c < nbig; c++ {
+		offs := []uint64{0, 1000, 5000}
+		lens := []uint32{200, 300, 250}
+		depth := c % 3 % 2 // 0,1,0,...
+		gzipped := c%3 != 2
+		if !gzipped {
+			depth = 1
+		}
+		per := 12000 + r.intn(4000)
+		n := per
+		if depth == 1 {
+			n = per * (2 + r.intn(2))
+		}
+		var es []Ent
+		id := hilBase(uint(8 + r.intn(3)))
+		for i := 0; i < n; i++ {
+			if i%997 == 996 {
+				id += uint64(1 + r.intn(3)) // a hole
+			}
+			es = append(es, Ent{ID: id, Off: offs[i%3], Len: lens[i%3], Run: 1})
+			id++
+		}
+		data := r.bytes(5250)
+		a := buildArchive(r, es, data, archOpts{tree: treeOpts{depth: depth, fan: 1, chunk: per, gzip: gzipped, shorthand: true}, tileType: 2, tileComp: 1, meta: "{}", minZoom: 0, maxZoom: 31})
+		qs := []uint64{es[0].ID, es[n-1].ID, es[n/2].ID, es[n-1].ID + 1, es[per-1].ID, es[per%n].ID, es[995].ID + 1, es[r.intn(n)].ID, es[0].ID - 1}
+		for k := 0; k < 4; k++ {
+			id := qs[(c+2*k+r.intn(2))%len(qs)]
+			var sb strings.Builder
+			fmt.Fprintf(&sb, "tile %s %d 127 %d %d %s %d", hx(data), a.LeafLB, a.H.RootLen, b2i(gzipped), a.dirsStr(), id)
+			emit(sb.String(), true, fmt.Sprintf("tile-bigdir-depth=%d-gzip=%v", depth, gzipped), func() (string, bool) {
+				if b, ok := a.truth(id); ok {
+					return "200 " + hx(b), true
+				}
+				return "204", true
+			})
+		}
+	}
 }
